@@ -2,6 +2,7 @@ package main
 
 import (
 	"fmt"
+	"go/token"
 	"go/types"
 	"os"
 	"path/filepath"
@@ -21,6 +22,7 @@ type Engine struct {
 	spkgs          []*ssa.Package
 	db             *ContractDB
 	stablePrefixes []string
+	roGlobals      map[*ssa.Global]bool
 	cellCache      map[*ssa.Alloc]bool
 	typeTags       map[string]int
 	strIDs         map[string]int
@@ -490,4 +492,78 @@ func (eng *Engine) isStableKey(key string) bool {
 		}
 	}
 	return false
+}
+
+// globalNeverWritten: every use of the global in the whole program is a load of the whole value or of an
+// element / field (no store, no address passed on).
+func (eng *Engine) globalNeverWritten(g *ssa.Global) bool {
+	eng.mu.Lock()
+	if eng.roGlobals == nil {
+		eng.roGlobals = map[*ssa.Global]bool{}
+	}
+	v, ok := eng.roGlobals[g]
+	eng.mu.Unlock()
+	if ok {
+		return v
+	}
+	var readOnly func(v ssa.Value, depth int) bool
+	readOnly = func(v ssa.Value, depth int) bool {
+		refs := v.Referrers()
+		if refs == nil || depth > 4 {
+			return false
+		}
+		for _, r := range *refs {
+			switch x := r.(type) {
+			case *ssa.DebugRef:
+			case *ssa.UnOp:
+				if x.Op != token.MUL {
+					return false
+				}
+			case *ssa.FieldAddr:
+				if !readOnly(x, depth+1) {
+					return false
+				}
+			case *ssa.IndexAddr:
+				if x.X != v || !readOnly(x, depth+1) {
+					return false
+				}
+			default:
+				return false
+			}
+		}
+		return true
+	}
+	res := true
+	for fn := range ssautil.AllFunctions(eng.prog) {
+		for _, b := range fn.Blocks {
+			for _, ins := range b.Instrs {
+				for _, op := range ins.Operands(nil) {
+					if *op != ssa.Value(g) {
+						continue
+					}
+					switch x := ins.(type) {
+					case *ssa.UnOp:
+						if x.Op != token.MUL {
+							res = false
+						}
+					case *ssa.FieldAddr:
+						if !readOnly(x, 0) {
+							res = false
+						}
+					case *ssa.IndexAddr:
+						if !readOnly(x, 0) {
+							res = false
+						}
+					case *ssa.DebugRef:
+					default:
+						res = false
+					}
+				}
+			}
+		}
+	}
+	eng.mu.Lock()
+	eng.roGlobals[g] = res
+	eng.mu.Unlock()
+	return res
 }
